@@ -59,6 +59,10 @@ func NewSlidingWindowMetric(sampleCount, intervalInMs uint32, real *BucketLeapAr
 func (m *SlidingWindowMetric) getBucketStartRange(timeMs uint64) (start, end uint64) {
 	curBucketStartTime := calculateStartTime(timeMs, m.real.BucketLengthInMs())
 	end = curBucketStartTime
+	if end+uint64(m.real.BucketLengthInMs()) < uint64(m.intervalInMs) {
+		// The window reaches back before time zero: avoid unsigned underflow of the start.
+		return 0, end
+	}
 	start = end - uint64(m.intervalInMs) + uint64(m.real.BucketLengthInMs())
 	return
 }
